@@ -417,12 +417,29 @@ pub fn hint(huge: bool) -> BoxedStrategy<Hint> {
 
 pub fn pairs(u: u32, dom: u8, max: usize) -> BoxedStrategy<Vec<Pair>> {
     // half of the time ids come from a universe smaller than the sequence (forced duplication)
-    prop_oneof![
+    let base = prop_oneof![
         vec((0..u, any::<u32>(), prio_spec(dom)), 0..max),
         vec((0..u.min(6).max(1), any::<u32>(), prio_spec(dom)), 0..max),
         vec((0..u.saturating_mul(3).max(1), any::<u32>(), prio_spec(dom)), 0..max),
-    ]
-    .boxed()
+    ];
+    // batches often arrive sorted (a merge, a dump of another queue): a fifth of them is put in non-increasing
+    // or non-decreasing order of their literal priorities, repeats of an item included
+    (base, 0u8..10)
+        .prop_map(|(mut v, mode)| {
+            let key = |p: &Pair| match p.2 {
+                PrioSpec::Val(x) => x,
+                PrioSpec::AboveMax(_) | PrioSpec::EqMax => i64::MAX,
+                PrioSpec::BelowMin(_) | PrioSpec::EqMin => i64::MIN,
+                _ => 0,
+            };
+            match mode {
+                0 => v.sort_by(|a, b| key(b).cmp(&key(a))),
+                1 => v.sort_by(|a, b| key(a).cmp(&key(b))),
+                _ => {}
+            }
+            v
+        })
+        .boxed()
 }
 
 fn pair_len_bound(p: &Profile) -> usize {
